@@ -207,7 +207,7 @@ SpecFlags(argv) ==
 \* comparison of what matters: argv from index 1 on (what unittest parses), flags, regeneration
 SameFlags(x, y) ==
     /\ x.raised = y.raised
-    /\ (~x.raised => /\ Tail(x.argv) = Tail(y.argv) /\ Len(x.argv) >= 1 /\ Len(y.argv) >= 1
+    /\ (~x.raised => /\ Len(x.argv) >= 1 /\ Len(y.argv) >= 1 /\ Tail(x.argv) = Tail(y.argv)
                      /\ x.regen = y.regen /\ x.check = y.check
                      /\ (x.check \/ x.tagged = y.tagged)   \* under listing the tagged flag has no observable effect
                      /\ x.quiet = y.quiet /\ x.kinds = y.kinds)
